@@ -21,6 +21,17 @@ _INPLACE = {"+": operator.iadd, "-": operator.isub, "*": operator.imul, "/": ope
             "<<": operator.ilshift, ">>": operator.irshift, "^": operator.ixor}
 
 
+def respell(txt):
+    """another spelling of the same reference text (other quote character, or harmless white space)"""
+    if "'" in txt and '"' not in txt and "\\" not in txt:
+        return txt.replace("'", '"')
+    if "[" in txt:
+        return txt.replace("[", "[ ", 1)
+    if "." in txt:
+        return txt.replace(".", " .", 1)
+    return txt + " "
+
+
 def rkey(kind, key):
     """the key object really passed to the container / reference for a path step"""
     if kind == "n":
@@ -274,12 +285,13 @@ class World:
             for t in targets:
                 ttar.update(self.ref(p) for p in prefixes(t))
             act = FtAction(self.basecont, name, deps, targets, coefs)
-            task = self.xd.tasks.FunctionTask("f:%s" % name, act, ttar, tdeps)
+            reftid = len(op) > 5 and op[5]
+            task = self.xd.tasks.FunctionTask(self.ref(targets[0]) if reftid else "f:%s" % name, act, ttar, tdeps)
             mgr.register(task)
             self.ftasks[name] = task
             mgr.run_tasks(mgr.find_tasks(task.dependencies))
         elif kind == "unregf":
-            mgr.unregister("f:%s" % op[1])
+            mgr.unregister(self.ftasks[op[1]].taskid)
             del self.ftasks[op[1]]
         elif kind == "regk":
             _, name, source, weights, targets = op[:5]
@@ -290,8 +302,18 @@ class World:
         elif kind == "unregk":
             mgr.unregister("k:%s" % op[1])
             del self.knobs[op[1]]
+        elif kind == "setfunc":
+            # re-assign a slot of the function container through its reference
+            setattr(self.rootref["f"], op[1], C.FUNCS[op[2]])
         elif kind == "load":
-            dump = [(str(self.ref(p)), str(self.build(a))) for p, a in op[1]]
+            dump = []
+            seen = set()
+            for p, a in op[1]:
+                txt = str(self.ref(p))
+                if p in seen:
+                    txt = respell(txt)      # the same target once more, written differently
+                seen.add(p)
+                dump.append((txt, str(self.build(a))))
             mgr.load(dump, overwrite=bool(op[2]))
             mgr.run_tasks(mgr.find_tasks())
         elif kind == "copyfrom":
